@@ -391,6 +391,10 @@ func schedBody(code codes.Code, fails *[]mc.Fail) func() {
 }
 
 // RunC10Sched is the schedule tier of C10 (child shards "sched/<code>").
+// ChildC10Sched is the schedule tier of C10 (a session that sent a batch is cut under every schedule of the server's
+// goroutines within the deviation bound, then the probe); the C11 command runs it too, in the -race build.
+func ChildC10Sched(rep *report.Report, tier, part string) { childC10Sched(rep, tier, part) }
+
 func childC10Sched(rep *report.Report, tier, part string) {
 	code := codes.Canceled
 	if strings.HasSuffix(part, "unavailable") {
